@@ -129,23 +129,30 @@ static Outcome run_forked(const std::vector<std::function<void()>> &bodies, cons
 struct Stats { long execs = 0, violations = 0, crashes = 0, deadlocks = 0, hangs = 0; size_t maxpoints = 0; int maxthreads = 0; std::vector<uint64_t> traces; };
 struct Bad { std::vector<int> choices; std::string msg; };
 
+// `part/nparts` splits the exploration tree below the ROOT execution into nparts disjoint sets of subtrees (by the running index of the
+// root's alternatives), so that one large unit can be spread over several processes; the root execution itself is counted by part 0.
 static void explore(const std::vector<std::function<void()>> &bodies, const std::function<void()> &reset, const std::function<std::string(const Exec &)> &check,
-                    int bound, std::vector<int> prefix, Stats &st, std::vector<Bad> &bad, const std::function<bool()> &keep_going) {
+                    int bound, std::vector<int> prefix, Stats &st, std::vector<Bad> &bad, const std::function<bool()> &keep_going, int part = 0, int nparts = 1) {
   if (!keep_going()) return;
+  const bool root = prefix.empty();
   Outcome o = run_forked(bodies, reset, check, prefix);
   if (o.hung) o = run_forked(bodies, reset, check, prefix, 120000);  // re-run alone with a longer limit before calling it a hang
-  st.execs++; if (o.x.points.size() > st.maxpoints) st.maxpoints = o.x.points.size();
-  if (o.crashed) st.crashes++; if (o.hung) st.hangs++; if (o.x.deadlock) st.deadlocks++;
-  st.traces.push_back(o.x.trace);
-  if (!o.ok) { st.violations++; if (bad.size() < 8) bad.push_back(Bad{o.x.choices, o.msg}); }
+  if (!root || part == 0) {
+    st.execs++; if (o.x.points.size() > st.maxpoints) st.maxpoints = o.x.points.size();
+    if (o.crashed) st.crashes++; if (o.hung) st.hangs++; if (o.x.deadlock) st.deadlocks++;
+    st.traces.push_back(o.x.trace);
+    if (!o.ok) { st.violations++; if (bad.size() < 8) bad.push_back(Bad{o.x.choices, o.msg}); }
+  }
   if (o.crashed || o.hung) return;  // the suffix of a crashed execution is unknown; its prefix alternatives are explored by the callers
   std::vector<int> pre(o.x.points.size() + 1, 0);
   for (size_t i = 0; i < o.x.points.size(); ++i) pre[i + 1] = pre[i] + ((o.x.points[i].running_still_enabled && o.x.points[i].chosen != 0) ? 1 : 0);
+  long j = 0;
   for (size_t i = prefix.size(); i < o.x.points.size(); ++i) {
     const Point &p = o.x.points[i];
     for (size_t alt = 1; alt < p.enabled.size(); ++alt) {
       int cost = pre[i] + (p.running_still_enabled ? 1 : 0);
       if (cost > bound) continue;
+      if (root && nparts > 1 && (j++ % nparts) != part) continue;
       std::vector<int> np(o.x.choices.begin(), o.x.choices.begin() + (long)i); np.push_back((int)alt);
       explore(bodies, reset, check, bound, np, st, bad, keep_going);
     }
